@@ -49,6 +49,10 @@ def family_F():
                     'unique titles at depth 2 next to a same-named section at depth 1 that allows duplicates'))
     F.append(Schema('F21', [Opt('sec', 'm', 'M', sub=[Opt('int', 'd', 'D', 5), Opt('int', 'dl', 'LDX', [b'1']), Opt('int', 'l', 'L', [b'1', b'2'])]),
                             Opt('int', 'dd', 'DX', 5)], 'deprecated / drop options and list defaults inside a multi section'))
+    F.append(Schema('F24', [Opt('sec', 'kv', 'K', sub=[Opt('int', 'a', '', 1), Opt('str', 'b', '', b'x')]),
+                            Opt('sec', 'kw', 'KM', sub=[Opt('int', 'a', '', 1), Opt('str', 'b', '', b'x'), Opt('int', 'c', 'L', [b'1']), Opt('bool', 'd', '', True)]),
+                            Opt('int', 'i', '', 5)],
+                    'free-form sections that also declare 2 and 4 options of their own (the option array grows from a size that is no power of two)'))
     F.append(Schema('F23', [Opt('sec', 'ds', 'DX', sub=[Opt('int', 'x', '', 1)]), Opt('sec', 'dm', 'MDX', sub=[Opt('int', 'x', '', 1)]),
                             Opt('sec', 'dd', 'D', sub=[Opt('int', 'x', '', 1)]), Opt('int', 'i', '', 5)],
                     'deprecated sections: single and multi ones that are dropped after they were read, one that is only reported'))
